@@ -1,5 +1,6 @@
 import Driver.Proto
 import Neutrino.Spec.CFHeaders
+import Neutrino.Model.VerifyFilter
 import Std.Data.HashMap
 open Neutrino.CFHeaders
 namespace Driver.Drv.CFHeaders
@@ -25,6 +26,30 @@ def Env.H (e : Env) : FHash → Hdr → Hdr :=
   fun f p => (e.htab.get? (f, p)).getD (1000000000 + f * 100003 + p)
 
 def Env.clearRound (e : Env) : Env := { e with resps := [], fl := [], vf := [], gb := [], gt := [], cpl := [], evs := [] }
+
+/-- `vb` row: the block as `VerifyBasicBlockFilter` classifies it, with the real filter's `Match` answers -/
+def parseVb (toks : List String) : List Neutrino.VerifyFilter.Tx × List (Nat × Option Bool) := Id.run do
+  let mut txs : Array Neutrino.VerifyFilter.Tx := #[]
+  let mut cur : Option Neutrino.VerifyFilter.Tx := none
+  let mut mem : List (Nat × Option Bool) := []
+  let ans (m : String) : Option Bool := if m == "1" then some true else if m == "0" then some false else none
+  for t in toks do
+    if t == "T" then
+      if let some c := cur then txs := txs.push c
+      cur := some ⟨[], []⟩
+    else
+      let c := cur.getD ⟨[], []⟩
+      match t.splitOn ":" with
+      | ["oe"] => cur := some { c with outs := c.outs ++ [⟨.empty, 0⟩] }
+      | ["or", s, m] => cur := some { c with outs := c.outs ++ [⟨.opret, nat! s⟩] }; mem := (nat! s, ans m) :: mem
+      | ["oo", s, m] => cur := some { c with outs := c.outs ++ [⟨.ord, nat! s⟩] }; mem := (nat! s, ans m) :: mem
+      | ["in"] => cur := some { c with ins := c.ins ++ [⟨.nowit, 0⟩] }
+      | ["iu"] => cur := some { c with ins := c.ins ++ [⟨.unsupported, 0⟩] }
+      | ["if"] => cur := some { c with ins := c.ins ++ [⟨.failed, 0⟩] }
+      | ["ic", s, m] => cur := some { c with ins := c.ins ++ [⟨.computed, nat! s⟩] }; mem := (nat! s, ans m) :: mem
+      | _ => pure ()
+  if let some c := cur then txs := txs.push c
+  return (txs.toList, mem)
 
 def optNat (s : String) : Option Nat := if s == "-" then none else s.toNat?
 
@@ -163,6 +188,25 @@ def runCase : CaseFn := fun c => Id.run do
         if r == "k" && v == VRes.bad then
           out := out.push s!"ORACLE-FAIL C03 case {c.num} line {ln}: shape=verify-rejects-complete-filter VerifyBasicBlockFilter rejected filter {f} for the block at height {h} although it contains every output script :: {line}"
       | none => pure ()
+    | "vb" :: h :: f :: toks =>
+      -- the model of VerifyBasicBlockFilter on the block's structure and the real Match answers, against the real verdict
+      let (txs, memL) := parseVb toks
+      let mem : Nat → Option Bool := fun s => ((memL.find? (·.1 == s)).map (·.2)).getD (some false)
+      let mtxt := match Neutrino.VerifyFilter.verify mem txs with
+        | none => "b"
+        | some n => toString n
+      if obs != "nofilter" && mtxt != obs then
+        out := out.push s!"DIFF C03 case {c.num} line {ln}: VerifyBasicBlockFilter on filter {f} and the block at height {h}: model {mtxt}, implementation {obs} :: {line}"
+      -- clause on the implementation's own observations: a filter is rejected only for an output it omits
+      -- (or a Match error), never for an input; and it IS rejected for an omitted output
+      let omits := Neutrino.VerifyFilter.omitsOutput mem txs
+      let errFree := Neutrino.VerifyFilter.errorFree mem txs
+      if obs == "b" && errFree && !omits then
+        out := out.push s!"ORACLE-FAIL C03 case {c.num} line {ln}: shape=verify-rejects-complete-filter VerifyBasicBlockFilter rejected filter {f} for the block at height {h} although it matches every output script of the block's non-coinbase transactions :: {line}"
+      if obs != "b" && obs != "nofilter" && omits then
+        out := out.push s!"ORACLE-FAIL C03 case {c.num} line {ln}: shape=verify-accepts-omitting-filter VerifyBasicBlockFilter accepted filter {f} for the block at height {h} although it does not match an output script of that block :: {line}"
+      if obs != "b" && obs != "nofilter" && errFree && obs != toString (Neutrino.VerifyFilter.opretMatches mem txs) then
+        out := out.push s!"ORACLE-FAIL C03 case {c.num} line {ln}: shape=verify-opreturn-count VerifyBasicBlockFilter reported {obs} matched OP_RETURN outputs, the filter matches {Neutrino.VerifyFilter.opretMatches mem txs} :: {line}"
     | ["hard", h, x] => e := { e with hard := e.hard ++ [(nat! h, nat! x)] }
     | "cpl" :: p :: rest =>
       let (l, _) := bracket rest
